@@ -94,3 +94,29 @@ Proof. exact tie_parser_dumpM. Qed.
 Check C11_source_parser_dump : forall p, PInv p -> g_parser_dump p = parser_dumpM p.
 Print Assumptions C11_source_parser_dump.
 
+From Avt Require Import Oracles.C11Narrow Proofs.C11More.
+(** Proofs/C11More.v (statement audit): exact classes of the findings, any target limit *)
+(** the restore theorem with hypotheses that are ONLY the executable classes of the recorded findings (kf1_C11_narrow, kf2_C11, kf3_C11, kf3b_C11), every reachable state, a fresh terminal with ANY scrollback limit as the target, and all future input *)
+Theorem C11_exact : forall c r l ops v l', 1 <= c -> 1 <= r -> Forall op_ok ops -> runM (vt_new c r l) ops = Ok v -> kf3_C11 (vterm v) = false -> kf3b_C11 (vterm v) = false -> kf1_C11_narrow (vterm v) = false -> kf2_C11 (vterm v) = false -> exists d r0 o0, vt_dump v = Ok d /\ feed_str (vt_new (cols (vterm v)) (rows (vterm v)) l') d = Ok (r0, o0) /\ holds_C11 v r0 = true /\ forall s v' ov, feed_str v s = Ok (v', ov) -> exists r1 o1, feed_str r0 s = Ok (r1, o1) /\ holds_C11 v' r1 = true.
+Proof. exact C11_restore_and_future_exact. Qed.
+Check C11_exact : forall c r l ops v l', 1 <= c -> 1 <= r -> Forall op_ok ops -> runM (vt_new c r l) ops = Ok v -> kf3_C11 (vterm v) = false -> kf3b_C11 (vterm v) = false -> kf1_C11_narrow (vterm v) = false -> kf2_C11 (vterm v) = false -> exists d r0 o0, vt_dump v = Ok d /\ feed_str (vt_new (cols (vterm v)) (rows (vterm v)) l') d = Ok (r0, o0) /\ holds_C11 v r0 = true /\ forall s v' ov, feed_str v s = Ok (v', ov) -> exists r1 o1, feed_str r0 s = Ok (r1, o1) /\ holds_C11 v' r1 = true.
+Print Assumptions C11_exact.
+
+(** KF-C11-1 narrowed to its exact extent: with origin mode on and the cursor outside the region the restore is STILL exact when the saved context has origin mode on, has auto-wrap on (or the terminal has neither auto-wrap nor a pending wrap) and no margin lies between the saved row and the cursor row *)
+Theorem C11_narrow : forall c r l ops v l', 1 <= c -> 1 <= r -> Forall op_ok ops -> runM (vt_new c r l) ops = Ok v -> dumpable' (vterm v) -> kf1_C11_narrow (vterm v) = false -> kf2_C11 (vterm v) = false -> exists d r' o, vt_dump v = Ok d /\ feed_str (vt_new (cols (vterm v)) (rows (vterm v)) l') d = Ok (r', o) /\ holds_C11 v r' = true.
+Proof. exact C11_dump_reachable_narrow. Qed.
+Check C11_narrow : forall c r l ops v l', 1 <= c -> 1 <= r -> Forall op_ok ops -> runM (vt_new c r l) ops = Ok v -> dumpable' (vterm v) -> kf1_C11_narrow (vterm v) = false -> kf2_C11 (vterm v) = false -> exists d r' o, vt_dump v = Ok d /\ feed_str (vt_new (cols (vterm v)) (rows (vterm v)) l') d = Ok (r', o) /\ holds_C11 v r' = true.
+Print Assumptions C11_narrow.
+
+(** "a fresh terminal of the same size" with any scrollback limit *)
+Theorem C11_any_limit : forall c r l ops v l', 1 <= c -> 1 <= r -> Forall op_ok ops -> runM (vt_new c r l) ops = Ok v -> dumpable' (vterm v) -> kf1_C11 (vterm v) = false -> kf2_C11 (vterm v) = false -> exists d r' o, vt_dump v = Ok d /\ feed_str (vt_new (cols (vterm v)) (rows (vterm v)) l') d = Ok (r', o) /\ holds_C11 v r' = true.
+Proof. exact C11_dump_reachable_any_limit. Qed.
+Check C11_any_limit : forall c r l ops v l', 1 <= c -> 1 <= r -> Forall op_ok ops -> runM (vt_new c r l) ops = Ok v -> dumpable' (vterm v) -> kf1_C11 (vterm v) = false -> kf2_C11 (vterm v) = false -> exists d r' o, vt_dump v = Ok d /\ feed_str (vt_new (cols (vterm v)) (rows (vterm v)) l') d = Ok (r', o) /\ holds_C11 v r' = true.
+Print Assumptions C11_any_limit.
+
+(** the size hypothesis of the older theorems, as executable classes: `dumpable'` = `dumpable` and not kf3b_C11 (the second half of KF-C11-3: primary showing, the alternate screen's saved cursor at column / row >= 65535 - reachable only through a terminal that once was >= 65536 wide or tall: C11_dumpable'_small_history) *)
+Theorem C11_kf3b_class : forall t, TInv t -> kf2_C11 t = false -> (dumpable' t <-> dumpable t = true /\ kf3b_C11 t = false).
+Proof. exact dumpable'_iff. Qed.
+Check C11_kf3b_class : forall t, TInv t -> kf2_C11 t = false -> (dumpable' t <-> dumpable t = true /\ kf3b_C11 t = false).
+Print Assumptions C11_kf3b_class.
+
